@@ -145,11 +145,24 @@ def run_case(case, res):
     points = list(itertools.product(GRID, repeat=2))
     if degenerate:
         points = points[::5]  # zero-length segments: a reduced point set
+    else:
+        # near ties: around every grid point that is exactly equidistant from two different places of the polyline, the four
+        # axis perturbations by 2e-6, 1e-5 and 4e-5 (the two candidates then differ by more than the 1e-6 the statement
+        # allows, but by little); far ties: the same construction scaled away from the curve along the tie direction
+        extra = []
+        for P in points:
+            best, prm = geom.point_polyline_sqdist(P, knots, verts)
+            if len(prm) >= 2 and best > 0:
+                for eps in (F(2, 10 ** 6), F(1, 10 ** 5), F(4, 10 ** 5)):
+                    for dx, dy in ((1, 0), (-1, 0), (0, 1), (0, -1)):
+                        extra.append((P[0] + eps * dx, P[1] + eps * dy))
+        points = points + extra[:96]
     for P in points:
         res.transition()
         res.state((verts, kvar, P))
         best, prm = geom.point_polyline_sqdist(P, knots, verts)
-        tags = dict(curve="polyline", segments=nseg, zero_length_segment=degenerate, on_curve=best == 0)
+        tags = dict(curve="polyline", segments=nseg, zero_length_segment=degenerate, on_curve=best == 0,
+                    near_tie=P[0].denominator > 2 or P[1].denominator > 2)
         where = f"polyline {verts} knots {[str(k) for k in knots]} point {tuple(str(x) for x in P)}"
         if any(knots[0] < u < knots[-1] for u in prm):
             res.nontriv((verts, kvar, P))
@@ -159,8 +172,9 @@ def run_case(case, res):
             continue
         ts, ds = r
         exact = math.sqrt(float(best))
-        if abs(ds[0] - exact) > 1e-9 * max(1.0, exact) + 1e-12:
-            res.violation("not_nearest", f"{where}: returned {ts} at distance {ds[0]}, the minimal distance is {exact} "
+        # the returned parameters may differ in distance by up to 1e-6 (checked above); the smallest must be the minimum
+        if abs(min(ds) - exact) > 1e-9 * max(1.0, exact) + 1e-12:
+            res.violation("not_nearest", f"{where}: returned {ts} at distance {min(ds)}, the minimal distance is {exact} "
                           f"(attained at {[float(u) for u in prm]})", **tags)
             res.outcome("not_nearest")
             continue
